@@ -132,8 +132,17 @@ func behaviour(f lib.Func) string {
 func parseOutcome(pi, ci int, mutate bool) string { return parseOutcomeText(histPaths[pi], ci, mutate) }
 
 func parseOutcomeText(text string, ci int, mutate bool) string {
-	out, _ := parseOutcomeWith(text, histConfigs()[ci](), mutate)
+	out, _ := parseOutcomeWith(text, configsFor(ci), mutate)
 	return out
+}
+
+// configsFor: the Config arguments of a call. Codes below 100 are one configuration; code a*100+b is a call that
+// passes TWO Config values, configuration a followed by configuration b (Parse is variadic).
+func configsFor(code int) []jsonpath.Config {
+	if code < 100 {
+		return histConfigs()[code]()
+	}
+	return append(histConfigs()[code/100](), histConfigs()[code%100]()...)
 }
 
 func parseOutcomeWith(text string, cfgs []jsonpath.Config, mutate bool) (string, lib.Func) {
@@ -244,7 +253,7 @@ func init() {
 			"documents incl. accessor-ness and Set==nil - is compared with the outcome of the same call made as the first call of a fresh process (one child process per distinct call, cached); "+
 			"one call per history additionally mutates its Config after Parse; a third of the histories use ONE live Config object for all calls, modified in place between them "+
 			"(functions replaced under the same ids, ids added to the other table, accessor mode switched on - always to a content that equals one of the configurations), and the function "+
-			"parsed before each modification must keep its behaviour; the parser-residue hook is read after every call; non-trivial = the history contains a failing call followed by "+
+			"parsed before each modification must keep its behaviour, and a quarter of those calls pass a SECOND Config value of another configuration after the live one (compared with the same two-value call made first in a fresh process; later calls with the live object alone must not see the second one's functions); the parser-residue hook is read after every call; non-trivial = the history contains a failing call followed by "+
 			"a succeeding one, or two different configurations; distinct = distinct histories", len(histPaths)),
 		Assumptions: []string{"the outcome of the first call in a fresh process is the history-free meaning of Parse(path, config)"},
 		Plan: func(tier string, seed int64) *harness.Plan {
@@ -259,7 +268,7 @@ func init() {
 				},
 				Run:      func(c *harness.Ctx, k int) { runC19(c, fc) },
 				Finish:   reportHooks,
-				Required: []string{"history:generated-path", "history:fail-then-success", "history:config-switch", "history:config-mutated", "history:live-config-modified-in-place", "outcome:error", "outcome:function", "residue:clean"},
+				Required: []string{"history:generated-path", "history:fail-then-success", "history:config-switch", "history:config-mutated", "history:live-config-modified-in-place", "history:two-config-values", "outcome:error", "outcome:function", "residue:clean"},
 			}
 		},
 	})
@@ -272,6 +281,7 @@ func runC19(c *harness.Ctx, fc *freshCache) {
 	type call struct {
 		pi, ci int
 		text   string // non-empty: a path outside the fixed list (pi = -1)
+		extra  int    // > 0: the call passes a second Config value of this configuration after its own
 	}
 	// two generated paths per history: a random AST in a random spelling, possibly mutated into a failing one
 	g := gen.New(r)
@@ -320,6 +330,9 @@ func runC19(c *harness.Ctx, fc *freshCache) {
 			}
 			calls[i].ci = ups[r.Intn(len(ups))]
 			liveSpec = calls[i].ci
+			if r.Intn(4) == 0 {
+				calls[i].extra = 1 + r.Intn(len(histConfigSpecs)-1)
+			}
 			if i > 0 && r.Intn(2) == 0 {
 				calls[i].pi, calls[i].text = calls[i-1].pi, calls[i-1].text // the same path again with the Config modified in place
 			}
@@ -332,12 +345,16 @@ func runC19(c *harness.Ctx, fc *freshCache) {
 	for i, cl := range calls {
 		var want, got, text string
 		var ok bool
+		code := cl.ci
+		if cl.extra > 0 && cl.ci != 0 {
+			code = cl.ci*100 + cl.extra
+		}
 		if cl.pi < 0 {
 			text = cl.text
-			want, ok = fc.getText(c, text, cl.ci)
+			want, ok = fc.getText(c, text, code)
 		} else {
 			text = histPaths[cl.pi]
-			want, ok = fc.get(c, cl.pi, cl.ci)
+			want, ok = fc.get(c, cl.pi, code)
 		}
 		if !ok {
 			return
@@ -349,7 +366,13 @@ func runC19(c *harness.Ctx, fc *freshCache) {
 				c.Cover("history:live-config-modified-in-place")
 			}
 			var f lib.Func
-			got, f = parseOutcomeWith(text, []jsonpath.Config{live}, false)
+			args := []jsonpath.Config{live}
+			if cl.extra > 0 {
+				// a second Config value after the live one: whatever Parse does with it, it must not end up in the live object
+				args = append(args, histConfigs()[cl.extra]()...)
+				c.Cover("history:two-config-values")
+			}
+			got, f = parseOutcomeWith(text, args, false)
 			// "the returned function keeps the functions it was parsed with even if the Config is modified afterwards"
 			if prevF != nil {
 				if now := behaviour(prevF); now != prevBehaviour {
@@ -366,7 +389,11 @@ func runC19(c *harness.Ctx, fc *freshCache) {
 			c.Cover("history:config-mutated")
 		}
 		if shared && cl.ci != 0 {
-			hist = append(hist, fmt.Sprintf("Parse(%q, live Config moved in place to cfg%d)", text, cl.ci))
+			if cl.extra > 0 {
+				hist = append(hist, fmt.Sprintf("Parse(%q, live Config moved in place to cfg%d, fresh cfg%d)", text, cl.ci, cl.extra))
+			} else {
+				hist = append(hist, fmt.Sprintf("Parse(%q, live Config moved in place to cfg%d)", text, cl.ci))
+			}
 		} else {
 			hist = append(hist, fmt.Sprintf("Parse(%q, cfg%d)", text, cl.ci))
 		}
